@@ -177,6 +177,11 @@ func (f *Fosite) DefaultClientAuthenticationStrategy(ctx context.Context, r *htt
 		if err != nil {
 			return nil, errorsx.WithStack(err)
 		}
+		if expiry <= 0 {
+			// token.Claims.Valid() reads a zero 'exp' as "no expiry": such an assertion would never expire and its
+			// 'jti' would be forgotten at once.
+			return nil, errorsx.WithStack(ErrInvalidClient.WithHint("Claim 'exp' from 'client_assertion' must be set but is not."))
+		}
 		if err := f.Store.SetClientAssertionJWT(ctx, jti, time.Unix(expiry, 0)); err != nil {
 			return nil, err
 		}
